@@ -655,10 +655,13 @@ func (g *c19Gen) pickRegion(e *c19Env, p int, size uint64, dst bool) (uint64, bo
 
 func (g *c19Gen) submit(e *c19Env) string {
 	p := g.rng.Intn(2)
-	if g.style == 4 {
+	if g.style == 4 || g.style == 6 {
 		p = 0
 	}
 	ks := []int{1, 1, 2, 2, 3, 4, 4, 5, 8, 8, 16}
+	if g.style == 6 {
+		ks = []int{1, 1, 2}
+	}
 	if g.big {
 		ks = []int{16, 32, 64}
 	}
@@ -688,7 +691,7 @@ func (g *c19Gen) next(e *c19Env) string {
 	rng := g.rng
 	if g.steps > 0 {
 		g.steps--
-		if g.nreq > 0 && (rng.Chance(6) || len(e.reqs) == 0) {
+		if g.nreq > 0 && (rng.Chance(6) || len(e.reqs) == 0 || (g.style == 6 && rng.Chance(40))) {
 			if s := g.submit(e); s != "" {
 				g.nreq--
 				if g.style == 5 && g.nreq > 0 && rng.Chance(70) {
@@ -707,6 +710,9 @@ func (g *c19Gen) next(e *c19Env) string {
 		case 3: // control side rarely collects
 			w = []int{35, 10, 10, 12, 10, 10, 10, 1}
 		case 4, 5:
+		case 6: // one controller, several small requests delivered early, completions never collected
+			// before the closing rounds: the Control port's outgoing buffer stays occupied
+			w = []int{40, 14, 10, 12, 10, 10, 10, 0}
 		}
 		tot := 0
 		for _, x := range w {
@@ -1321,7 +1327,10 @@ func runC19(r *Run, rng *Rng, replay string) {
 	}
 	for i := 0; i < n+nbig; i++ {
 		big := i >= n
-		g := &c19Gen{rng: rng, style: rng.Intn(6), steps: 20 + rng.Intn(200), nreq: 1 + rng.Intn(4), close: rng.Chance(85), big: big}
+		g := &c19Gen{rng: rng, style: rng.Intn(7), steps: 20 + rng.Intn(200), nreq: 1 + rng.Intn(4), close: rng.Chance(85), big: big}
+		if g.style == 6 {
+			g.nreq, g.steps, g.close = 3+rng.Intn(3), 250+rng.Intn(200), true
+		}
 		msz := uint64(512 * (1 + rng.Intn(4)))
 		if big {
 			msz = 8192 * uint64(1+rng.Intn(2))
